@@ -1843,3 +1843,32 @@ M("s6-ilog2-of-array-length", "C05", "fire S6", "src/compile.rs",
                                 let s = index[mux_layer];
                                 let mut i = 0;
                                 while i < collection.len() {""", "seed C05-e (inlined): ilog2 of an array length that can be 0")
+
+# ---------------------------------------------------------------- C05 quiet variants
+M("s2-quiet-branches-reordered", "C05", "quiet", "src/check.rs",
+  """            constrain_type(then_expr, ty)?;
+            constrain_type(else_expr, ty)?;""",
+  """            constrain_type(else_expr, ty)?;
+            constrain_type(then_expr, ty)?;""", "behaviour-preserving (up to the order of reported errors): else branch constrained first")
+M("s1-quiet-size-through-local", "C05", "quiet", "src/compile.rs",
+  """                let type_size = param.ty.size_in_bits_for_defs(self, &const_sizes);
+                let mut wires = Vec::with_capacity(type_size);
+                for _ in 0..type_size {""",
+  """                let type_size = param.ty.size_in_bits_for_defs(self, &const_sizes);
+                let n_wires = type_size;
+                let mut wires = Vec::with_capacity(n_wires);
+                for _ in 0..n_wires {""", "behaviour-preserving: size copied into another local")
+M("s6-quiet-ilog2-clamped", "C05", "quiet", "src/compile.rs",
+  """                            let out_of_bounds_elem = 1;
+                            for mux_layer in (0..index.len()).rev() {
+                                let mut muxed_array = Vec::new();
+                                let s = index[mux_layer];
+                                let mut i = 0;
+                                while i < collection.len() {""",
+  """                            let out_of_bounds_elem = 1;
+                            let _needed_bits = min(max(num_elems, 1).ilog2() as usize + 1, index.len());
+                            for mux_layer in (0..index.len()).rev() {
+                                let mut muxed_array = Vec::new();
+                                let s = index[mux_layer];
+                                let mut i = 0;
+                                while i < collection.len() {""", "behaviour-preserving: a clamped logarithm that is computed but not used")
